@@ -390,7 +390,7 @@ func (s *Scn) ScriptedEpoch(n *simnode.Node, height uint64, app *appstate.AppSta
 		case 0:
 			sr.BadAuthors[x.addr] = types.BadAuthorReason(h / 5 % 3)
 		case 1, 2:
-			nf := 1 + int(h/5%3)
+			nf := 1 + int(h/5%6)
 			fl := make([]*types.FlipToReward, 0, nf)
 			for k := 0; k < nf; k++ {
 				fl = append(fl, &types.FlipToReward{Cid: []byte{byte(k), byte(h >> 8)}, Grade: types.Grade(2 + (h>>uint(4*k))%4), GradeScore: decimal.New(int64(15+(h>>uint(4*k))%40), -1)})
